@@ -67,7 +67,7 @@ def sha256 (msg : Bytes) : Bytes := Id.run do
   let mut h := h256
   for i in [0:p.size / 64] do
     h := compress256 h p (64 * i)
-  return h.toList.flatMap (fun x => [(x >>> 24).toUInt8, (x >>> 16).toUInt8, (x >>> 8).toUInt8, x.toUInt8])
+  return h.toList.flatMap (fun (x : UInt32) => [(x >>> 24).toUInt8, (x >>> 16).toUInt8, (x >>> 8).toUInt8, x.toUInt8])
 
 def k512 : Array UInt64 := #[
   0x428a2f98d728ae22, 0x7137449123ef65cd, 0xb5c0fbcfec4d3b2f, 0xe9b5dba58189dbbc, 0x3956c25bf348b538,
@@ -133,7 +133,7 @@ def sha512core (iv : Array UInt64) (msg : Bytes) : Bytes := Id.run do
   let mut h := iv
   for i in [0:p.size / 128] do
     h := compress512 h p (128 * i)
-  return h.toList.flatMap (fun x => (List.range 8).map (fun j => (x >>> (UInt64.ofNat (8 * (7 - j)))).toUInt8))
+  return h.toList.flatMap (fun (x : UInt64) => (List.range 8).map (fun j => (x >>> (UInt64.ofNat (8 * (7 - j)))).toUInt8))
 
 def sha512 (msg : Bytes) : Bytes := sha512core h512 msg
 def sha384 (msg : Bytes) : Bytes := (sha512core h384 msg).take 48
